@@ -5,6 +5,7 @@ CONSTANTS
   Maxes <- QuickMaxes
   Methods <- QuickMethods
   Shardings <- FullShardings
+  Codes <- QuickCodes
   CfgSpace <- QuickCfg
   MaxLen = 6
   AioForwardsMethod = TRUE
